@@ -6,6 +6,7 @@ object passed to the target: values, .s0, .fs, .channel, .metadata.  Sample valu
 (position in the stage's one-shot whole-signal result, computed here with ONE call of the same numpy/scipy
 primitive and compared bit-exactly), so that the integer model of Stages/Model.v can be compared with `==`."""
 import itertools
+import os
 import numpy as np
 from vlib import zlit, zlist, listlit
 
@@ -14,7 +15,7 @@ REQUIRES = ['Stages.Model']
 RULE = ('per stage (blocked, discard, downsample, decimate, rms, derivative, iirfilter, transform, mc_reference, auto_th): '
         'ALL compositions (chunkings) of a stream of N samples (quick: N=7 for 1-D/2-channel x plain/annotated, N=10 for 1-D annotated; '
         'thorough: N=9 resp. 12) with a parameter that does not divide N, then seeded random chunkings of streams up to 400 samples with '
-        'random parameters (q 1..5, block sizes 1..50, discard counts 0..N+2, rms block 1..50, filter orders 1..3, baseline 0..N+2), '
+        'random parameters (q 1..5, block sizes 1..50, discard counts 0..N+2, rms block 1..50, filter orders 1..3, baseline 2..N+2), '
         '1-D and 2-channel, plain ndarray and PipelineData (s0 0 or a non-zero multiple of the block length), fs in {1000, 44100, 195312.5}; '
         'event_rate: all compositions of spans of 9 (thorough 11) samples and random spans up to 300 with random events, window 1..40, step 1..40. '
         'Non-trivial: at least two chunks and at least one chunk boundary that is not a multiple of the stage period '
@@ -24,7 +25,7 @@ TRUSTED = ['harness/C12.py (stream/chunking generator; recipe evaluation: one on
            'NumPy basic slicing as modelled in coq/Common/PySlice.v; generators resuming where they yielded']
 ASSUMPTIONS = ['chunks have >= 1 sample; all chunks of a stream carry the same fs, channel labels and metadata and are contiguous in s0',
                'parameters: q >= 1, block size >= 1, discard count >= 0, rms block >= 1 and dividing the s0 of the first chunk '
-               '(rms divides s0 by the block length in floating point), baseline >= 0 samples',
+               '(rms divides s0 by the block length in floating point), auto_th baseline >= 2 samples (std of 0 or 1 samples is NaN / 0)',
                'scipy.signal.lfilter is the sample-sequential recurrence whose final state zf, passed as zi, continues it exactly '
                '(abstract mapAccum in the proofs; exercised bit-exactly here); lfilter is never called on an empty array by the repaired code',
                'transform is claimed for elementwise functions, mc_reference for square matrices; derivative for annotated input only '
@@ -372,13 +373,16 @@ def _got(res, r):
 
 def term(case, res):
     st, p = case['stage'], case['p']
+    # C12_MODEL_UNREPAIRED=1 compares with the `rep = false` variants of the model instead (used once, by hand, to
+    # validate the `_unrepaired` model functions against the tree before the fix-C12 commits)
+    rep = 'false' if os.environ.get('C12_MODEL_UNREPAIRED') else 'true'
     if st == 'event_rate':
         cs, lo = [], case['lo']
         for n in case['sizes']:
             cs.append(f'Ev {zlist([e for e in case["events"] if lo <= e < lo + n])} {zlit(lo)} {zlit(lo + n)}')
             lo += n
         got = listlit([f'Rb {zlist(o["counts"])} {zlit(o["s0x2"])} {zlit(o["fsd"])}' for o in res['outs']])
-        return f'check_event_rate true {zlit(p["bsz"])} {zlit(p["stp"])} {listlit(cs)} (Some {got})'
+        return f'check_event_rate {rep} {zlit(p["bsz"])} {zlit(p["stp"])} {listlit(cs)} (Some {got})'
     h, s0, sizes = _hdr(case), zlit(case['s0'] if case['ann'] else 0), zlist(case['sizes'])
     nrows = 1 if 'raised_allowed' in res else (len(res['outs'][0]['rows']) if res['outs'] else 1)
     ts = []
@@ -389,15 +393,15 @@ def term(case, res):
         elif st == 'discard':
             t = f'check_discard {zlit(p["d"])} {h} {s0} {sizes} {got}'
         elif st == 'downsample':
-            t = f'check_downsample true {zlit(p["q"])} {h} {s0} {sizes} {got}'
+            t = f'check_downsample {rep} {zlit(p["q"])} {h} {s0} {sizes} {got}'
         elif st == 'decimate':
-            t = f'check_decimate true {zlit(p["q"])} {h} {s0} {sizes} {got}'
+            t = f'check_decimate {rep} {zlit(p["q"])} {h} {s0} {sizes} {got}'
         elif st == 'rms':
-            t = f'check_rms true {zlit(_n_eff(case["fs"], p["n"]))} {h} {s0} {sizes} {got}'
+            t = f'check_rms {rep} {zlit(_n_eff(case["fs"], p["n"]))} {h} {s0} {sizes} {got}'
         elif st == 'derivative':
             t = f'check_derivative {h} {s0} {sizes} {got}'
         elif st == 'iirfilter':
-            t = f'check_iir true {h} {s0} {sizes} {got}'
+            t = f'check_iir {rep} {h} {s0} {sizes} {got}'
         elif st in ('transform', 'mc_reference'):
             t = f'check_map {h} {s0} {sizes} {got}'
         elif st == 'auto_th':
@@ -602,7 +606,7 @@ def _params(stage, rng, N, exhaustive):
     if stage == 'mc_reference':
         return {'matrix': rng.choice([[[1, -1], [0, 1]], [[2, 1], [1, 1]], [[0, 1], [1, 0]]])}
     if stage == 'auto_th':
-        return {'B': 4 if exhaustive else rng.choice([0, 1, 2, N - 1, N, N + 2, rng.randint(0, N + 2)]),
+        return {'B': 4 if exhaustive else max(2, rng.choice([2, 3, N - 1, N, N + 2, rng.randint(2, N + 2)])),
                 'nsd': rng.choice([1, 2]), 'mode': rng.choice(['positive', 'negative', 'both']),
                 'fsarg': 'value'}
     raise KeyError(stage)
